@@ -66,6 +66,12 @@ check("C28", "model_checking",
       "TLA+ spec of client copy + LSP positions, TLC state-graph enumeration and simulation, spec->impl replay through the real server",
       "DESIGN.md section 6 C28")
 
+check("C08", "model_checking",
+      "LexerRef.tla is a character-level reference tokenizer whose input is chosen nondeterministically step by step, so TLC's state graph contains every input of <= 5 characters over 9 character classes (quick; <= 6 over 12 classes thorough: 66 k / 3.3 M inputs) with the reference tokens and positions (line = 1 + preceding line feeds, column = characters since the last line feed). Every input is lexed by the real lexer in-process under catch_unwind with a watchdog: no crash or hang; an Ok stream ends with EOF, balances Indent/Dedent, is ordered, and its identifier/number/string/+/parenthesis tokens sit where the reference puts them; an Err result carries an error. Long random inputs over a 28-class alphabet (tabs, bidi, astral, braces, quotes) and the corpus files are judged for totality, stream shape and the verbatim rule (source text at the reported position equals the token).",
+      "Trusted: TLC; LexerRef.tla for its small alphabet (inputs it marks unknown are judged for totality only); inputs the lexer rejects are not compared for positions.",
+      "TLA+ reference tokenizer with nondeterministic input explored exhaustively by TLC, spec->impl replay; stream monitor on simulated inputs",
+      "DESIGN.md section 6 C08")
+
 NOT_APPLICABLE = {
     "C16": "static comparison of opcode/magic tables with external ground truth: no state or behaviour for a TLA+ specification to constrain (DESIGN.md section 7)",
     "C27": "data audit of ~150 declaration files against installed interpreters/typeshed: no behaviour to model in TLA+ (DESIGN.md section 7)",
